@@ -20,11 +20,18 @@ import (
 // Measurement A, B (two firmwares with their own endorsements) or X (endorsed by nobody); the table
 // carries nothing (-> bucket fetch), the firmware's own endorsement, that endorsement with a
 // corrupted signature, the OTHER firmware's endorsement, or (X) firmware A's endorsement.
-var svKinds = []string{"A/bucket", "B/bucket", "A/own", "B/own", "A/corrupt", "B/corrupt", "A/other", "B/other", "X/bucket", "X/A"}
+// Measurement R (endorsed by nobody) and C (a firmware whose genuine endorsement never travels) come
+// with a forgery made of parts of A's genuine endorsement (replay_test.go), in the certificate table
+// or as the bucket object named after the measurement: R with A's payload listing R instead of A's
+// 4-VMSA measurement under A's replayed signature, C with C's payload under A's replayed signature.
+var svKinds = []string{"A/bucket", "B/bucket", "A/own", "B/own", "A/corrupt", "B/corrupt", "A/other", "B/other", "X/bucket", "X/A",
+	"R/replay", "R/bucket", "C/replay", "C/bucket"}
+
+var svForgery = map[string]string{"R": "replay/measurement-replaced", "C": "replay/other-payload"}
 
 func (f *fixture) svAttestation(kind string) *spb.Attestation {
 	parts := strings.Split(kind, "/")
-	meas := map[string][]byte{"A": measEndorsed4, "B": measB4, "X": measBad}[parts[0]]
+	meas := map[string][]byte{"A": measEndorsed4, "B": measB4, "X": measBad, "R": measR1, "C": measC4}[parts[0]]
 	own, other := f.blobA, f.blobB
 	if parts[0] == "B" {
 		own, other = f.blobB, f.blobA
@@ -39,16 +46,18 @@ func (f *fixture) svAttestation(kind string) *spb.Attestation {
 		extras = map[string][]byte{sev.GCEFwCertGUID: other}
 	case "A":
 		extras = map[string][]byte{sev.GCEFwCertGUID: f.blobA}
+	case "replay":
+		extras = map[string][]byte{sev.GCEFwCertGUID: f.replay[svForgery[parts[0]]]}
 	}
 	return attest.SnpAttestation(meas, extras)
 }
 
 // svMustReject: the measurement is endorsed by nobody; or the endorsement in use is not the
-// firmware's genuine one. With SevValidateOptions.Endorsement configured (firmware A's) that one is
+// firmware's genuine one (a forgery made of parts of a genuine one included). With SevValidateOptions.Endorsement configured (firmware A's) that one is
 // in use whatever the certificate table carries.
 func svMustReject(c svCfg, kind string) bool {
 	parts := strings.Split(kind, "/")
-	if parts[0] == "X" {
+	if parts[0] == "X" || svForgery[parts[0]] != "" {
 		return true
 	}
 	if c.fixed {
@@ -92,7 +101,7 @@ func TestSevValidateSharedOptions(t *testing.T) {
 		t.Skip()
 	}
 	const name = "sevvalidate/shared-options"
-	ev.Rule(name, "one gcetcbendorsement.SevValidateOptions (roots, time, bucket getter; drawn: ExpectedLaunchVmsas 0/4, BasePolicy unset/set, Overwrite, Endorsement unset/firmware A's, TestonlyForceGCS) reused for 2-6 successive SevValidate calls; each call's attestation: measurement of firmware A or B or unendorsed, endorsement source {none -> bucket fetch, own genuine endorsement in the certificate table, endorsement with a corrupted signature in the table, the OTHER firmware's endorsement in the table}; oracle: accept/reject equals the result with a fresh equally configured options value now and before anything was shared in this process; an unendorsed measurement, a corrupted or another firmware's endorsement in use is rejected; the shared options (Endorsement pointer, base policy content, flags) are unchanged afterwards; non-trivial = the sequence contains two different attestation kinds, the second following an accepted call; distinct = (configuration, sequence of attestation kinds)")
+	ev.Rule(name, "one gcetcbendorsement.SevValidateOptions (roots, time, bucket getter; drawn: ExpectedLaunchVmsas 0/4, BasePolicy unset/set, Overwrite, Endorsement unset/firmware A's, TestonlyForceGCS) reused for 2-6 successive SevValidate calls; each call's attestation: measurement of firmware A or B or unendorsed, endorsement source {none -> bucket fetch, own genuine endorsement in the certificate table, endorsement with a corrupted signature in the table, the OTHER firmware's endorsement in the table}, or an unendorsed measurement R / a measurement C whose genuine endorsement never travels, with a forgery made of parts of firmware A's genuine endorsement (A's signature replayed over A's payload edited to list R, resp. over C's payload) in the table or as the bucket object named after the measurement; oracle: accept/reject equals the result with a fresh equally configured options value now and before anything was shared in this process; an unendorsed measurement, a corrupted, forged or another firmware's endorsement in use is rejected (forgeries: key forgery-replaying-parts-of-a-genuine-endorsement-accepted; classes forgery/<kind>/after-an-accepted-genuine-call count those presented after the shared options served an accepted call on A's genuine endorsement); the shared options (Endorsement pointer, base policy content, flags) are unchanged afterwards; non-trivial = the sequence contains two different attestation kinds, the second following an accepted call; distinct = (configuration, sequence of attestation kinds)")
 	f := newFixture()
 	ctx := context.Background()
 	// verdicts alone, before anything is shared; what must be rejected first
@@ -102,15 +111,25 @@ func TestSevValidateSharedOptions(t *testing.T) {
 		cfgs = append(cfgs, svCfg{fixed: i&1 != 0, base: i&2 != 0, overwrite: i&4 != 0, forceGCS: i&8 != 0})
 	}
 	key := func(c svCfg, vmsas uint32, kind string) string { return c.label(vmsas) + "|" + kind }
-	for _, wantReject := range []bool{true, false} {
+	// order: the forgeries, then the other kinds that must be rejected, then the rest. The forgeries'
+	// verdicts in isolation are taken in a twin fixture (own signatures and forgeries, used for
+	// nothing else), so that nothing has carried the genuine endorsement they are made of (an
+	// attestation of kind X/A carries it too) and this fixture's genuine endorsement has not met them.
+	twin := newFixture()
+	for pass := 0; pass < 3; pass++ {
+		wantReject := pass < 2
 		for _, c := range cfgs {
 			for _, vmsas := range []uint32{0, 4} {
 				for _, k := range svKinds {
-					if svMustReject(c, k) != wantReject {
+					if svMustReject(c, k) != wantReject || (svForgery[strings.Split(k, "/")[0]] != "") != (pass == 0) {
 						continue
 					}
+					in := f
+					if pass == 0 {
+						in = twin
+					}
 					acc := guardSV(func() error {
-						return gcetcbendorsement.SevValidate(ctx, f.svAttestation(k), newSevValidateOptions(f, vmsas, c))
+						return gcetcbendorsement.SevValidate(ctx, in.svAttestation(k), newSevValidateOptions(in, vmsas, c))
 					}) == nil
 					pristine[key(c, vmsas, k)] = acc
 					if acc && wantReject {
@@ -134,7 +153,7 @@ func TestSevValidateSharedOptions(t *testing.T) {
 		shared := newSevValidateOptions(f, vmsas, c)
 		snap := snapSevValidateOptions(shared)
 		before := snap()
-		sawAccept, nontrivial := false, false
+		sawAccept, sawGenuineA, nontrivial := false, false, false
 		for i, k := range seq {
 			want := guardSV(func() error {
 				return gcetcbendorsement.SevValidate(ctx, f.svAttestation(k), newSevValidateOptions(f, vmsas, c))
@@ -145,6 +164,9 @@ func TestSevValidateSharedOptions(t *testing.T) {
 			switch {
 			case got != nil && strings.HasPrefix(got.Error(), "PANIC") && !(want != nil && strings.HasPrefix(want.Error(), "PANIC")):
 				ev.Violation(rt, "C09/panic-under-interleaving", "%s panicked: %v", where, got)
+				return
+			case got == nil && svMustReject(c, k) && !pr && svForgery[strings.Split(k, "/")[0]] != "":
+				ev.Violation(rt, replayKey, "%s presented a forgery made of parts of firmware A's genuine endorsement (%s) and was ACCEPTED; it must be rejected whatever was validated before (fresh options now: %s, %v)", where, svForgery[strings.Split(k, "/")[0]], okStr(want), want)
 				return
 			case got == nil && svMustReject(c, k) && !pr:
 				ev.Violation(rt, "C09/unendorsed-accepted-under-interleaving", "%s was ACCEPTED; it must be rejected whatever was validated before (fresh options now: %s, %v)", where, okStr(want), want)
@@ -159,7 +181,15 @@ func TestSevValidateSharedOptions(t *testing.T) {
 			if i > 0 && sawAccept && k != seq[i-1] {
 				nontrivial = true
 			}
+			if fam := svForgery[strings.Split(k, "/")[0]]; fam != "" {
+				if sawGenuineA {
+					ev.Class(name, "forgery/"+k+"/after-an-accepted-genuine-call")
+				} else {
+					ev.Class(name, "forgery/"+k+"/no-accepted-genuine-call-before")
+				}
+			}
 			sawAccept = sawAccept || got == nil
+			sawGenuineA = sawGenuineA || (got == nil && strings.HasPrefix(k, "A/"))
 		}
 		if after := snap(); after != before {
 			ev.Violation(rt, "C09/caller-options-mutated", "SevValidate changed the caller's options (%s) across calls %v: before %s after %s", c.label(vmsas), seq, before, after)
